@@ -187,6 +187,20 @@ fn swap_xml_props(text: &str, a: &str, b: &str) -> Option<String> {
     Some(out)
 }
 
+/// Closes the `<Properties>` element after the earlier of the two property elements named `a` and
+/// `b` and opens a second one: the reader keeps one property map per Item, not per element.
+fn split_xml_props(text: &str, a: &str, b: &str) -> Option<String> {
+    let end_of = |name: &str| -> Option<usize> {
+        let marker = format!(" name=\"{}\">", name);
+        let at = text.find(&marker)?;
+        let start = text[..at].rfind('<')?;
+        let close = format!("</{}>", &text[start + 1..at]);
+        Some(at + text[at..].find(&close)? + close.len())
+    };
+    let cut = end_of(a)?.min(end_of(b)?);
+    Some(format!("{}</Properties><Properties>{}", &text[..cut], &text[cut..]))
+}
+
 fn subject<'a>(dom: &'a WeakDom) -> Option<&'a rbx_dom_weak::Instance> {
     dom.get_by_ref(*dom.root().children().first()?)
 }
@@ -320,6 +334,13 @@ pub fn judge(c: &Case15) -> Vec<(String, String)> {
                     let mut files = vec![("file-order".to_owned(), text.clone())];
                     if c.explicit_new {
                         if let Some(sw) = swap_xml_props(&text, &c.legacy, &spelled) {
+                            match (split_xml_props(&text, &c.legacy, &spelled), split_xml_props(&sw, &c.legacy, &spelled)) {
+                                (Some(s1), Some(s2)) => {
+                                    files.push(("file-order-two-properties-elements".to_owned(), s1));
+                                    files.push(("swapped-order-two-properties-elements".to_owned(), s2));
+                                }
+                                _ => v.push(("read-xml/two-properties-elements".to_owned(), Err("harness: could not split the Properties element".into()))),
+                            }
                             files.push(("swapped-order".to_owned(), sw));
                         } else {
                             v.push(("read-xml/swapped-order".to_owned(), Err("harness: could not swap XML properties".into())));
@@ -559,7 +580,7 @@ pub fn check(run: &Run) -> Value {
         "outcomes": total.outcomes,
         "samples": total.samples.iter().map(|s| serde_json::from_str::<Value>(s).unwrap()).collect::<Vec<_>>(),
         "exhaustive": true,
-        "rule": "every (class, legacy property) pair of the database whose serialization is Migrate (on the declaring class and every subclass) x every value the database allows for the legacy type (all items of Enum.Font, all BrickColor numbers, both booleans, a URI alphabet) x new property absent / present x four paths (write binary, write XML, read binary, read XML; read paths from files that still carry the legacy name, in both encounter orders), compared with PropertyMigration::perform and with each other",
+        "rule": "every (class, legacy property) pair of the database whose serialization is Migrate (on the declaring class and every subclass) x every value the database allows for the legacy type (all items of Enum.Font, all BrickColor numbers, both booleans, a URI alphabet) x new property absent / present x four paths (write binary, write XML, read binary, read XML; read paths from files that still carry the legacy name, in both encounter orders, for XML also with the two elements in two separate <Properties> elements of the Item), compared with PropertyMigration::perform and with each other",
     })
 }
 
